@@ -1,6 +1,7 @@
 package h
 
 import (
+	"bytes"
 	"context"
 	"fmt"
 	"io"
@@ -12,6 +13,8 @@ import (
 	"github.com/ipfs/go-cid"
 	rootcar "github.com/ipld/go-car"
 	carv2 "github.com/ipld/go-car/v2"
+	"github.com/ipld/go-car/v2/blockstore"
+	"github.com/ipld/go-car/v2/index"
 	"github.com/ipld/go-car/v2/verifbridge"
 	"verif/sim"
 )
@@ -57,16 +60,24 @@ var verifyingReaders = []string{"v2br", "inspect", "root", "rootload", "rootload
 	// truncation clause (and to returning the right CID sequence of a valid archive), not to the hash clause.
 	"v2skip",
 	// likewise scanning but not verifying: inspection without hashing, and index generation
-	"inspectfast", "genindex"}
+	"inspectfast", "genindex",
+	// the key listing of a read-only store that was given its index by the caller (a detached index,
+	// say) and therefore has not scanned the payload when it was opened: the listing is the scan
+	"allkeys"}
 
-func readerNeedsReaderAt(reader string) bool { return reader == "inspect" || reader == "inspectfast" }
+func readerNeedsReaderAt(reader string) bool {
+	return reader == "inspect" || reader == "inspectfast" || reader == "allkeys"
+}
+
+// scanSuppliedIndex is the index of the valid image under test, handed to the "allkeys" reader.
+var scanSuppliedIndex index.Index
 
 // scanOnly readers are held to the truncation clause only; countless ones hand back no blocks.
 func scanOnly(reader string) bool {
-	return reader == "v2skip" || reader == "inspectfast" || reader == "genindex"
+	return reader == "v2skip" || reader == "inspectfast" || reader == "genindex" || reader == "allkeys"
 }
 func countless(reader string) bool {
-	return reader == "inspect" || reader == "inspectfast" || reader == "genindex"
+	return reader == "inspect" || reader == "inspectfast" || reader == "genindex" || reader == "allkeys"
 }
 
 // scanWith runs one verifying reader over data.
@@ -119,6 +130,32 @@ func scanWith(reader string, data []byte, profile string, del sim.Delivery, opts
 			_, err := carv2.GenerateIndex(src.(io.Reader), opts.Options()...)
 			res.endErr = err
 			res.clean = err == nil
+		case "allkeys":
+			ro, err := blockstore.NewReadOnly(src.(io.ReaderAt), scanSuppliedIndex, opts.Options()...)
+			if err != nil {
+				res.constructErr = err
+				return
+			}
+			var asyncErr error
+			ctx, cancel := context.WithCancel(blockstore.WithAsyncErrorHandler(context.Background(), func(e error) {
+				if asyncErr == nil {
+					asyncErr = e
+				}
+			}))
+			defer cancel()
+			ch, err := ro.AllKeysChan(ctx)
+			if err != nil {
+				res.endErr = err
+				return
+			}
+			n := 0
+			for range ch {
+				if n++; n > len(data)+16 {
+					panic(sim.BudgetExceeded{Calls: n})
+				}
+			}
+			res.endErr = asyncErr
+			res.clean = asyncErr == nil
 		case "root":
 			cr, err := rootcar.NewCarReader(src.(io.Reader))
 			if err != nil {
@@ -277,6 +314,7 @@ func RunC02(t *Trace, st *Stats) *Violation {
 			m = ms.Muts[0]
 		}
 		data := l.ApplyMuts(ms.Muts)
+		scanSuppliedIndex = suppliedIndexFor(l, opts)
 		if !applicableReader(l, ms.Reader, opts) {
 			return nil
 		}
@@ -284,6 +322,7 @@ func RunC02(t *Trace, st *Stats) *Violation {
 	}
 	every := t.Extra != nil && t.Extra["every_bit"] == true
 	r := RunRng(t.Seed, "C02", "medium-enum", t.Run)
+	scanSuppliedIndex = suppliedIndexFor(l, opts)
 	var first *Violation
 	seen := map[string]bool{}
 	n := int64(len(l.Image))
@@ -472,9 +511,20 @@ func RunC02(t *Trace, st *Stats) *Violation {
 	return first
 }
 
+// suppliedIndexFor builds, from the VALID image, the index a caller would hand to NewReadOnly.
+func suppliedIndexFor(l *Layout, opts ReadOpts) index.Index {
+	idx, err := carv2.GenerateIndex(bytes.NewReader(l.Image), opts.Options()...)
+	if err != nil {
+		return nil // "allkeys" is then skipped (applicableReader)
+	}
+	return idx
+}
+
 // applicableReader: the CARv1-only readers are run on CARv1 images only.
 func applicableReader(l *Layout, reader string, opts ReadOpts) bool {
 	switch reader {
+	case "allkeys":
+		return scanSuppliedIndex != nil
 	case "root", "rootload", "rootloadfast", "v1", "v1load":
 		if l.Spec.V2 {
 			return false
